@@ -3,8 +3,12 @@
 # Interpretation (permissive side):
 #  * a request "addresses" an endpoint if its path is the endpoint's path, possibly with a query, one percent-encoded
 #    letter, or unclean segments ("/./", "/zz/../", "//", "/<other endpoint>/../") that clean to it.  Other spellings
-#    (trailing slash, changed case, appended characters, an encoded slash, an extra segment) address no endpoint: for
-#    them only "no provider is called without a valid token" is demanded (401, 404, 400 or a redirect are all fine).
+#    (trailing slash, changed case, appended characters, an encoded slash, an extra segment, a ".png" / ".ico" /
+#    "/logo.png" / "/health" ending) address no endpoint: for them only "no provider is called without a valid token"
+#    is demanded (401, 404, 400 or a redirect are all fine) - except below a subtree pattern whose handler dispatches by
+#    prefix (/agents/{id}/..., /debug/pprof/...): those endings still address that non-exempt handler (MUST401).
+#  * the server is long-lived and every request is judged on its own: no earlier request (with whatever token
+#    presentation) may change the verdict for a later one; two-request sequences on a fresh server are enumerated.
 #  * MUST401 (token configured, non-exempt endpoint addressed, no valid token): status exactly 401 and no provider call.
 #  * NOT401: /health, /healthz, /ready, / and /logo.png in canonical spelling (any method, any token presentation).
 #    Non-canonical spellings of exempt endpoints may answer 401 or not; without a valid token they may reach only the
@@ -37,9 +41,12 @@ def harness(ctx, inp, wire):
         raise vf.Infra("HTTP API harness produced no summary:\n" + r.out[-3000:])
     for x in r.of("violation"):
         c = x["case"]
-        ctx.finding("HttpApi:%s:%s:%s:%s" % ("|".join(w.split(":")[0] for w in x["why"]), c["r"], c["v"], c["p"]),
-                    "%s (token configured %s, flags %s): %s" % (x["request"].split("\r\n")[0], c["tok"], vf.canon(c["fl"]),
-                                                              "; ".join(x["why"])), x)
+        pr = x.get("prime")
+        ctx.finding("HttpApi:%s:%s:%s:%s%s" % ("|".join(w.split(":")[0] for w in x["why"]), c["r"], c["v"], c["p"],
+                                               (":after-%s-%s" % (pr["r"], pr["p"])) if pr else ""),
+                    "%s%s (token configured %s, flags %s): %s" % (
+                        ("after a %s request with token presentation %s on the same server: " % (pr["r"], pr["p"])) if pr else "",
+                        x["request"].split("\r\n")[0], c["tok"], vf.canon(c["fl"]), "; ".join(x["why"])), x)
     return summ, r.of("drift")
 
 
@@ -51,6 +58,9 @@ def run(ctx):
     vecs = [o for t, o in res.prints if t == "VEC"]
     if len(vecs) != res.distinct:
         raise vf.Infra("TLC printed %d vectors for %d cases" % (len(vecs), res.distinct))
+    seqs = [o for t, o in res.prints if t == "SEQ"]
+    if not seqs:
+        raise vf.Infra("TLC printed no request sequences")
     caught = {}
     for d in DEVS:
         r = ctx.tlc("HttpApi", "MCdev.cfg", files={"MCdev.cfg": cfg("tiny", [d], emit=False)}, expect_violation=True,
@@ -59,6 +69,9 @@ def run(ctx):
             raise vf.Infra("deviation %s is not rejected by the oracle (vacuous oracle)" % d)
         caught[d] = r.violated
     vecs.sort(key=vf.canon)
+    seqs.sort(key=vf.canon)
+    nsingle = len(vecs)
+    vecs = vecs + seqs      # sequences: priming request + judged request on one fresh server
     inp = os.path.join(ctx.work, "c24cases.json")
     vf.write_json(inp, vecs)
     summ, drift = harness(ctx, inp, False)
@@ -82,10 +95,11 @@ def run(ctx):
                               "/<other>/../, trailing slash, upper case, appended character, %2F, extra segment"],
                  evaluations=summ["cases"] + (wsum["cases"] if wsum else 0),
                  distinct_nontrivial=len(summ["classes"]),
-                 rule="cases = 35 routes (every registered pattern, every /agents/{id}/... sub-route, pprof profiles) x 12 path "
+                 rule="cases = 35 routes (every registered pattern, every /agents/{id}/... sub-route, pprof profiles) x 16 path "
                       "spellings x methods x 8 token presentations x token configured x 8 flag combinations, enumerated by TLC "
-                      "from HttpApi.tla (%s: %d cases); oracle predicates MUST401/NOT401/MUST404/NOACTION from the statement" % (
-                          size, len(vecs)),
+                      "from HttpApi.tla (%s: %d cases) plus %d two-request sequences on one server (every token presentation "
+                      "as priming request x every probe); oracle predicates MUST401/NOT401/MUST404/NOACTION from the "
+                      "statement" % (size, nsingle, len(seqs)),
                  oracle_cases=n, outcome_classes=summ["classes"], cases_reaching_an_action=summ["with_action"],
-                 redirected=summ["redirected"], transcription_drift=summ["drift"], deviations_caught=caught,
+                 redirected=summ["redirected"], request_sequences=summ["sequences"], transcription_drift=summ["drift"], deviations_caught=caught,
                  wire=wsum, samples=[vecs[len(vecs) // 5], vecs[len(vecs) // 2], vecs[-7]])
